@@ -1,5 +1,6 @@
 // F-REAL / BTC reference heights (C01, C04): one BTC block (2) is referenced by two applied VTBs contained at symbolic VBK heights (in
-// either order of heights); a third VTB, contained at a symbolic height, brings BTC block 3 whose parent is that block.  The BTC
+// either order of heights; the second one also brings BTC block 3); a third VTB, contained at a symbolic height, has the already known
+// BTC block 3 as its block of proof and no context, so the rule looks at the parent BTC 2.  The BTC
 // context rule ("the block the context connects to must already be referenced at or below the containing height") must be decided
 // from the SET of reference heights, not from the order in which they were recorded: valid iff min(hA, hB) <= hC - also after the
 // chain was left and re-activated (references rebuilt in another order).
@@ -16,8 +17,8 @@ extern "C" __attribute__((noinline)) void h_realrefs() {
   PopData p2, p3, p4, p5, none;
   for (int v = 2; v <= 5; v++) p2.context.push_back(w.vbkById[v]);
   p3.vtbs.push_back(makeVTB(w, 2, (uint8_t)cA, 2, 2, 1));
-  p4.vtbs.push_back(makeVTB(w, 2, (uint8_t)cB, 2, 2, 2));
-  p5.vtbs.push_back(makeVTB(w, 2, (uint8_t)cC, 3, 3, 3));            // block of proof BTC 3, no context: connects to BTC 2
+  p4.vtbs.push_back(makeVTB(w, 2, (uint8_t)cB, 3, 2, 2));            // block of proof BTC 3 with context BTC 2: BTC 3 is ALREADY KNOWN when the third VTB arrives
+  p5.vtbs.push_back(makeVTB(w, 2, (uint8_t)cC, 3, 3, 3));            // block of proof BTC 3 (known), no context: the rule looks at its parent BTC 2
   t.acceptBlock(altHash(2), p2); t.acceptBlock(altHash(3), p3); t.acceptBlock(altHash(4), p4); t.acceptBlock(altHash(5), p5); t.acceptBlock(altHash(6), none);
   bool expect = (cA <= cC) || (cB <= cC);
   bool detour = verif_cbool();
@@ -31,7 +32,8 @@ extern "C" __attribute__((noinline)) void h_realrefs() {
   ValidationState st;
   bool ok = t.setState(altHash(5), st);
   verif_check(ok == expect, 5);                                      // decided from the set of reference heights
-  if (ok) { auto* b3 = t.btc().getBlockIndex(w.btcById[3].getHash()); verif_check(b3 != nullptr && b3->getRefs().size() == 1 && b3->getRefs()[0] == (int)cC - 1, 6); verif_cover(1); }
+  if (ok) { auto* b3 = t.btc().getBlockIndex(w.btcById[3].getHash()); verif_check(b3 != nullptr && b3->getRefs().size() == 2, 6);
+            int nB = 0, nC = 0; for (auto r : b3->getRefs()) { nB += r == (int)cB - 1; nC += r == (int)cC - 1; } verif_check(cB == cC ? nB == 2 : (nB == 1 && nC == 1), 9); verif_cover(1); }
   else { verif_check(t.getBlockIndex(altHash(5))->hasFlags(BLOCK_FAILED_POP), 7); verif_cover(2); }
   verif_check(vbkIndexExact(t), 8);
   if (cA > cC && cB <= cC) verif_cover(3);                           // the FIRST recorded reference is too high, the second one is not
